@@ -687,6 +687,50 @@ def _tree_strs(T):
     return [repr(t).replace(" ", "") for t in trees.all_rooted_binary(list(range(T)))]
 
 
+def ob_underflow_value(name, use_tip_states):
+    """the value returned on the evaluation that switches to rescaling (and on the next one) is the exact marginal: JC69 on trees large
+    enough for the plain pass to underflow (C03's scenarios), against an INDEPENDENT log-space pruning in Python floats"""
+    def body():
+        import contracts.C03 as C03
+        from specs import marginal
+        shape, T, cols, bl = C03.SHAPED[name]
+        torch.set_num_threads(1)
+        m = C03._shaped_model(shape, T, cols, bl, False, use_tip_states)
+        if shape == "caterpillar":
+            tree = 0
+            for i in range(1, T):
+                tree = (tree, i)
+        else:
+            level = list(range(T))
+            while len(level) > 1:
+                level = [(level[i], level[i + 1]) if i + 1 < len(level) else level[i] for i in range(0, len(level), 2)]
+            tree = level[0]
+        want = sum(marginal.jc69_logspace(tree, [c(i) for i in range(T)], bl) for c in cols)
+        bad = []
+        for which in ("first (switching)", "second"):
+            try:
+                x = float(m().reshape(-1)[0]) if which.startswith("first") else float(m._call().reshape(-1)[0])
+            except Exception as e:
+                bad.append("%s evaluation raised %s: %s" % (which, type(e).__name__, str(e)[:100]))
+                break
+            if not (x == x) or abs(x - want) > 1e-8 * abs(want):
+                bad.append("%s evaluation returns %r, log-space marginal %r" % (which, x, want))
+        if bad:
+            raise Refuted("%s (tip_states=%s): %s" % (name, use_tip_states, "; ".join(bad)), witness={"scenario": name, "problems": bad},
+                          replay={"kind": "custom", "contract": "C01", "func": "replay_underflow_value", "args": {"name": name, "tip_states": use_tip_states}}, confirmed=True)
+        return {"backend": "concrete", "cases": 2, "statement": "%s: model value equals the log-space marginal %.6f on the switching and on the next evaluation" % (name, want)}
+    return Ob("C01.model.underflow[%s,tip_states=%s]" % (name, use_tip_states), "B", body,
+              clause="the log-likelihood is the exact marginal also when the plain pass underflows (large trees, bounded)", funcs=FUNCS, timeout=600)
+
+
+def replay_underflow_value(args):
+    try:
+        ob_underflow_value(args["name"], args["tip_states"]).fn()
+    except Refuted as e:
+        return False, e.detail
+    return True, "held"
+
+
 def _history_world(kind, values_index):
     """real TreeLikelihoodModel (JC69, constant site model, strict clock for time trees) over a tree model of the given kind"""
     from torchtree.core.parameter import Parameter
@@ -891,6 +935,12 @@ def obligations(tier, seed):
     add("C01.model.rescaled[((A,B),C);,time,strict,batch=(2,)]", "scn_model",
         ("((A,B),C);", ["A", "B", "C"], ["ACA", "CGC", "GTG"], [0.0, 1.0, 0.0], "time", "strict", "constant", 1, False, True, (2,), "stub", True),
         "TreeLikelihoodModel pipeline with rescaling on ≡ marginal sum (batched)", fns={"P": lambda t, i, j: _pfun(t, i, j, 4)})
+    import contracts.C03 as _c03
+    for name_ in _c03.SHAPED:
+        if "1024" in name_ and tier == "quick":
+            continue
+        for ts_ in (False, True):
+            obs.append(ob_underflow_value(name_, ts_))
     for kind in ("time", "ratios", "unrooted"):
         obs.append(ob_likelihood_history(kind, 4 if tier == "quick" else 5))
     for T in (3, 4, 5, 6):
